@@ -2607,3 +2607,19 @@ package sdf
 //@   ensures [the-union-looks-back-through-the-inverse-step] !isnil(r) ==> r.step == step.Inverse() && r.num == num && r.sdf == sdf
 //@   ensures [the-box-starts-from-the-operand-box] !isnil(r) ==> r.bb.Contains(v0[0]) && ord3(r.bb)
 //@ end
+
+//@ spec rec cpos2(step M33, x v2.Vec, n int) v2.Vec = ite(n <= 0, x, step.MulPosition(cpos2(step, x, n - 1)))
+
+//@ func RotateUnion2D
+//@   property C01 C02
+//@   id corners-follow-the-step
+//@   requires ord2(sdf.BoundingBox())
+//@   requires step.Determinant() != 0
+//@   prelet v0 = sdf.BoundingBox().Vertices()
+//@   invariant 0 0 <= i && i <= s.num && len(v) == 4 && s.num == num && num >= 1
+//@   invariant 0 v[0] == cpos2(step, v0[0], i) && v[1] == cpos2(step, v0[1], i) && v[2] == cpos2(step, v0[2], i) && v[3] == cpos2(step, v0[3], i)
+//@   invariant 0 bbMin.X <= v0[0].X && bbMin.Y <= v0[0].Y && bbMax.X >= v0[0].X && bbMax.Y >= v0[0].Y
+//@   ensures [no-copies-no-shape] num <= 0 <==> isnil(r)
+//@   ensures [the-union-looks-back-through-the-inverse-step] !isnil(r) ==> r.step == step.Inverse() && r.num == num && r.sdf == sdf
+//@   ensures [the-box-starts-from-the-operand-box] !isnil(r) ==> r.bb.Contains(v0[0]) && ord2(r.bb)
+//@ end
